@@ -159,6 +159,9 @@ func (g *Gen) Op(name string, ac *chain.Actor, ctx sdk.Context) sdk.Msg {
 		}
 	case "swapOut1":
 		max := math.NewInt(1e13)
+		if g.hostile() && r.Intn(6) == 0 {
+			max = math.ZeroInt() // a stated maximum of nothing (accepted by validation)
+		}
 		if g.hostile() && r.Intn(3) == 0 {
 			// boundary amounts: exactly a half / two thirds / three quarters of a constant-product
 			// pool's reserve (the price formula raises exactly 2, 3, 4 to the weight ratio)
